@@ -546,7 +546,7 @@ impl Sim for ServicesSim {
                 id: "C19",
                 level: "exploration",
                 modes: vec!["nofault", "fault"],
-                quick_runs: 12_000,
+                quick_runs: 10_000,
                 thorough_runs: 40_000,
                 rule: "One run = one seeded sequence of antctl invocations (add with random option vectors and counts 1..3, start, stop, remove, upgrade, status, by name or for all services), each executed as a fresh process: NodeRegistry::load from a real file, the real refresh_node_registry / add_node / ServiceManager<NodeService>::{start,stop,remove,upgrade}, save. All OS and RPC effects go to a simulated OS behind the repo's own ServiceControl / RpcActions traits. Mode fault adds: call #n (and sometimes #m) of an operation's ServiceControl/RpcActions calls fails with an error the real implementation returns, a launch that silently produces no process, external process death, manual removal of a service definition, and registry-file corruption between invocations; in the thorough tier (and 1/8 of quick fault runs) the failing call index of one operation per run is enumerated 0,1,2,... until it exceeds the calls made (inner evaluations). After every invocation the registry file is compared with the simulated OS. Non-trivial = >=3 operations and >=1 fault fired; distinct = distinct fingerprint of the executed operation kinds, results and fired faults.",
                 assumptions: vec![
@@ -562,7 +562,7 @@ impl Sim for ServicesSim {
                 id: "C20",
                 level: "exploration",
                 modes: vec!["plain", "faulty-lifecycle"],
-                quick_runs: 5_000,
+                quick_runs: 4_000,
                 thorough_runs: 60_000,
                 rule: "One run = one seeded antctl add option vector (network selection incl. custom EVM, node/metrics/rpc ports and ranges, node ip, rpc address, peers arguments within antctl's own conflict rules, log format and retention, owner, home-network/UPnP/auto NAT flags, user mode or service user, environment, auto-restart, count 1..3), optionally a second add command, then [start -> (kill) -> stop], status, and one or two upgrades (forced or to a higher version, started or not, with or without --env), each as a fresh process from the saved registry; mode faulty-lifecycle injects failing OS/RPC calls into the steps before the final upgrade, including an upgrade attempt that fails half way. The simulated OS records every ServiceInstallCtx; program, user, label, working directory, contents, environment, autostart are compared field by field and both argument lists are given to the real antnode binary (guarded print-and-exit hook) whose parsed options and derived EVM network / socket address must be equal between install and upgrade (except the port pinned after a start) and equal to the configuration intended by the add command. Non-trivial = >=3 operations and >=1 fault fired (faulty-lifecycle); distinct = distinct fingerprint of operation kinds, results, fired faults and option vector.",
                 assumptions: vec![
